@@ -48,6 +48,10 @@ class LoopMixin(object):
         for k in [k for k in state.sel if lo <= k[1] <= hi and k[0] == path]:
             del state.sel[k]
         state.pc = tuple(c for c in state.pc if not mentions(c[0], local))
+        # registry slots keyed by a loop-local value belong to this iteration's
+        # element only
+        for k in [k for k in state.regs if mentions(k[1], local)]:
+            del state.regs[k]
 
     def _widen(self, s, frame, assigned, loopid):
         """loop-assigned non-flag variables become stable 'loopvar' terms"""
